@@ -131,6 +131,7 @@ type Thread struct {
 	WaitRecv   int
 	Ready      func(e *Engine, st *State) bool
 	Quiesced   bool
+	Yielded    bool
 }
 
 func (t *Thread) clone() *Thread {
@@ -181,6 +182,7 @@ type State struct {
 	NoSched   bool
 	NeedSched bool
 	PoolReuse bool
+	YieldFrom int
 	TimerFired int
 	VisibleAtomics bool
 	ConcreteClock bool
@@ -218,7 +220,7 @@ func (st *State) fork() *State {
 	n := &State{
 		id: stateSeq, nextObj: st.nextObj, Cur: st.Cur,
 		Steps: st.Steps, SymBr: st.SymBr, PanicLbl: st.PanicLbl, Depth: st.Depth, Preempts: st.Preempts,
-		LastNow: st.LastNow, Epoch: st.Epoch, NoSched: st.NoSched, NeedSched: st.NeedSched, PoolReuse: st.PoolReuse, TimerFired: st.TimerFired, VisibleAtomics: st.VisibleAtomics, ConcreteClock: st.ConcreteClock, ClockTick: st.ClockTick,
+		LastNow: st.LastNow, Epoch: st.Epoch, NoSched: st.NoSched, NeedSched: st.NeedSched, PoolReuse: st.PoolReuse, YieldFrom: st.YieldFrom, TimerFired: st.TimerFired, VisibleAtomics: st.VisibleAtomics, ConcreteClock: st.ConcreteClock, ClockTick: st.ClockTick,
 	}
 	// the parent also needs a new id so that neither mutates shared objects in place
 	stateSeq++
